@@ -23,7 +23,7 @@ RULE = ("(lindep) rank-planted singular problems (as C01) with regularisation su
         "constraints resolve the defect. Non-trivial = defect>0 / a planted part / reduced constraints; distinct by sha1.")
 ASSUMPTIONS = ["numpy SVD rank with the gap rule of C01 as reference for 'truly linearly dependent'",
                "planted parts are indeterminable by construction (fewer determining elements than unknowns, no other ties)"]
-REQUIRED_CLASSES = ["lindep.nonresolving", "lindep.resolving", "planted.single", "planted.dir_only", "planted.pair", "planted.lev_pair",
+REQUIRED_CLASSES = ["lindep.nonresolving", "lindep.resolving", "planted.single", "planted.dir_only", "planted.pair", "planted.lev_pair", "planted.free_base",
                     "free.insufficient", "free.refused"]
 
 NONFINITE = re.compile(r"(?<![A-Za-z])[-+]?(nan|inf)(?![A-Za-z])", re.I)
@@ -96,7 +96,9 @@ def finite_outputs(tag, res):
 
 @st.composite
 def planted_case(draw):
-    net = draw(gen_net.determined_network(noise=1, allow_cov=True))
+    # one case in three on a free network (datum by constrained points): the retry loop of null_space() then runs
+    # on a system that is singular anyway
+    net = draw(gen_net.determined_network(noise=1, allow_cov=True, free=draw(st.integers(0, 2)) == 0))
     has_xy, has_z = net["dims"] in ("2d", "3d"), net["dims"] in ("3d", "1d")
     kinds = (["single", "dir_only", "pair"] if has_xy else []) + (["lev_pair"] if has_z else [])
     plants = []
@@ -215,9 +217,15 @@ def tolerant_compare(tag, x0, x1, stats, net):
 
 def oracle_planted(c, stats):
     net0 = c["net"]
-    if not gen_net.is_determined(net0):
+    if net0.get("free"):
+        if not well_posed_free(net0):
+            stats.label("discarded_free_not_well_posed")
+            return []
+        stats.label("planted.free_base")
+    elif not gen_net.is_determined(net0):
         stats.label("discarded_not_determined")
         return []
+    TP = "planted_free" if net0.get("free") else "planted"
     net1, planted, labels = build_planted(c)
     for l in labels:
         stats.label(l)
@@ -239,27 +247,36 @@ def oracle_planted(c, stats):
         res = runs[alg]
         x, err = parse(res)
         if err:
-            fails.append("planted.%s.%s" % (alg, err))
+            fails.append("%s.%s.%s" % (TP, alg, err))
             continue
-        fails += finite_outputs("planted.%s" % alg, res)
+        fails += finite_outputs("%s.%s" % (TP, alg), res)
         if "error" in x:
-            fails.append("planted.%s.refused: the determined rest is not adjusted: %s" % (alg, x["error"]["descriptions"]))
+            fails.append("%s.%s.refused: the determined rest is not adjusted: %s" % (TP, alg, x["error"]["descriptions"]))
             continue
         X[alg] = x
         got = set(a["id"] for k in ("fixed", "adjusted") for a in x["coordinates"][k])
         still = [q for q in planted if q in got]
         lost = sorted(base_ids - got)
         if still:
-            fails.append("planted.%s.adjusted: indeterminable point(s) %s appear among the adjusted points" % (alg, still))
+            fails.append("%s.%s.adjusted: indeterminable point(s) %s appear among the adjusted points" % (TP, alg, still))
         if lost:
-            fails.append("planted.%s.lost: determined point(s) %s are missing from the results (planted: %s)" % (alg, lost, planted))
+            fails.append("%s.%s.lost: determined point(s) %s are missing from the results (planted: %s)" % (TP, alg, lost, planted))
         rem = removed_in_text(res.get("text"))
         miss = [q for q in planted if q not in rem]
         if miss:
-            fails.append("planted.%s.not_reported: %s left out without being listed among the removed points %s" % (alg, miss, sorted(rem)))
+            fails.append("%s.%s.not_reported: %s left out without being listed among the removed points %s" % (TP, alg, miss, sorted(rem)))
         if not still and not lost:
-            fails += tolerant_compare("planted.%s.rest" % alg, x0, x, stats, net0)
+            fails += tolerant_compare("%s.%s.rest" % (TP, alg), x0, x, stats, net0)
+    if TP == "planted_free" and fails:
+        # known finding (algorithm dependent removal from ill-posed free networks): in a free network the first unknown a
+        # solver flags may belong to a healthy point; everything except crashes and non-finite output is one symptom
+        hard = [f for f in fails if ".crash" in f.split(":", 1)[0] or ".nonfinite" in f.split(":", 1)[0] or ".xml" in f.split(":", 1)[0]]
+        soft = [f for f in fails if f not in hard]
+        if soft:
+            hard.append("planted_free.cascade: planted %s in a free network: %s" % (planted, " | ".join(x_[:160] for x_ in soft[:3])))
+        return hard
     return fails
+
 
 
 # ------------------------------------------------------------------ (c) free networks with deficient constraints
